@@ -115,12 +115,14 @@ class IORecord:
     maxsize = len(
         str(2**31 - 1)
     )  # limit to max short even though Python3 can go bigger.
-    _intFormat = " {{:>+{}}}".format(maxsize)
     _intLength = maxsize + 1
+    # right-aligned in the fixed field: the blank in front goes when sign and ten digits need it
+    _intFormat = "{{:>+{}}}".format(_intLength)
 
     _floatSize = struct.calcsize("f")
-    _floatFormat = " {:+.16E}"
     _floatLength = 2 + 2 + 16 + 4
+    # right-aligned in the fixed field: the blank in front goes when the exponent has three digits
+    _floatFormat = "{{:>+{}.16E}}".format(_floatLength)
 
     _characterSize = struct.calcsize("c")
     count = 0
